@@ -1,6 +1,8 @@
 \* quick: Sink + Stream round trip for every framer (all fragmentations, states merge) and hostile
 \* peers (bytes chosen when delivered) for every framer; safety, progress measure, deadlock freedom
 CONSTANTS
+  FixExtractOverflow = TRUE
+  FixFramerError = TRUE
   Lfls = {1, 2, 3, 4, 5, 6, 7, 8}
   HostLfls = {1, 2, 3, 4, 5, 6, 7, 8}
   Endians = {TRUE, FALSE}
@@ -28,5 +30,5 @@ CONSTANTS
   MaxErr = 0
   AfterDone = 0
 SPECIFICATION Spec
-INVARIANTS SinkExact SinkPrefix RoundTrip InRange PosInside NoPanicModuloKnown BuiltinNeverPoisoned MeasureNonNeg
+INVARIANTS SinkExact SinkPrefix RoundTrip InRange PosInside NoPanic ErrorOnlyWhenRefused MeasureNonNeg
 PROPERTIES Progress WProgress
